@@ -1,0 +1,9 @@
+//go:build verif
+
+package types
+
+// Contracts for the verification framework in /verif (comment-only file; compiled
+// only with -tags verif, where it contributes nothing but these comments).
+
+//@ // ---- declared effects (checked per call instruction by the effect checker; anything not listed is effect-free) ----
+//@ effects SetMaccPerms global.write
